@@ -1063,8 +1063,10 @@ func extractFunctionName(expr string) string {
 	// Extract function name part
 	funcName := strings.TrimSpace(expr[:parenIndex])
 
-	// If function name contains other operators or spaces, it's not a simple function call
-	if strings.ContainsAny(funcName, " +-*/=<>!&|") {
+	// If function name contains other operators or spaces, it's not a simple function call.
+	// A quote means the '(' sits inside (or after) a string literal or quoted identifier, e.g. the
+	// select item 'temp (C)': that is a literal, not a call.
+	if strings.ContainsAny(funcName, " +-*/=<>!&|'\"`") {
 		return ""
 	}
 
